@@ -90,12 +90,20 @@ func (h *httpHandler) ServeHTTP(w http.ResponseWriter, r *http.Request) {
 		return
 	}
 
-	var wg sync.WaitGroup
+	// done is closed when the first run of the computation has finished.
+	done := make(chan struct{})
+	var doneOnce sync.Once
 	e := h.executor
 
-	wg.Add(1)
+	ran := false
 	runner := reactive.NewRerunner(r.Context(), func(ctx context.Context) (interface{}, error) {
-		defer wg.Done()
+		// The request is answered by the first run. If a dependency is
+		// invalidated before Stop is called below, do not answer it again.
+		if ran {
+			return nil, errors.New("stop")
+		}
+		ran = true
+		defer doneOnce.Do(func() { close(done) })
 
 		ctx = batch.WithBatching(ctx)
 
@@ -128,6 +136,12 @@ func (h *httpHandler) ServeHTTP(w http.ResponseWriter, r *http.Request) {
 		return nil, nil
 	}, DefaultMinRerunInterval, false)
 
-	wg.Wait()
+	// A rerunner whose context is already cancelled never runs its computation,
+	// so also stop waiting when the request is cancelled. Stop waits for a run
+	// that is in progress, so nothing writes to w after we return.
+	select {
+	case <-done:
+	case <-r.Context().Done():
+	}
 	runner.Stop()
 }
